@@ -20,7 +20,10 @@ LEVEL_TEXT = ("Coq theorems over a Gallina model of Zeroconf::handle_query (all 
               "are now part of the positive theorems); outside the deviation classes it equals the text itself; each "
               "deviation is proved to be one by a witness; for EVERY input (no hypothesis) every record of a response is "
               "proved to be a record of a listed service that is Announced on the receiving interface, also in every "
-              "state of the daemon model.  The model is tied to the Rust on every run by "
+              "state of the daemon model; and over ALL histories of the daemon model, with a ghost log of everything "
+              "emitted, a service is Announced on an interface only after an announcement of it went out for that "
+              "interface, so every answer of every reachable history is for a service announced there earlier "
+              "(C06_answers_after_announcement; the daemon model registers without probing).  The model is tied to the Rust on every run by "
               "regenerated constants/guards (Gen/ParamsResponder.v) and by a differential run of the real daemon in "
               "the simulated world (injected queries, captured packets parsed independently); the checker chk_C06 of "
               "the theorems is executed on the implementation's packets")
